@@ -351,7 +351,7 @@ def make_v3(path, rng, T=8, F=6, n_ants=2, shuffle_bls=True, dup_final_dump=Fals
 def make_v2(path, rng, T=8, F=6, n_ants=2, shuffle_bls=True, dup_final_dump=False, activity=None, targets=None,
             labels=None, int_time=1.0, t0=1300000000.0, open_kwargs=None, with_flags=True, with_weights=False,
             extra_sensors=None, centre_freq=1822e6, bandwidth=400e6, mode='wbc', version='2.1',
-            pols='hv', seed=None, open=True, lost=None):
+            pols='hv', seed=None, open=True, lost=None, config_as_datasets=False):
     """Write a v2 (KAT-7) file and open it.  `t0` is the MID time of the first dump; the file stores dump
     START times (t0 - int_time/2 + k*int_time) and the reader adds half a dump period.
 
@@ -418,10 +418,18 @@ def make_v2(path, rng, T=8, F=6, n_ants=2, shuffle_bls=True, dup_final_dump=Fals
         for k, v in script_attrs.items():
             obs.attrs[k] = v
         corr = cfg.create_group('Correlator')
-        corr.attrs['int_time'] = float(int_time)
-        corr.attrs['n_chans'] = int(F)
-        corr.attrs['bandwidth'] = float(bandwidth)
-        corr.attrs['bls_ordering'] = np.array(corrprods, dtype='S')
+        if config_as_datasets:
+            # the correlator configuration was issued twice during capture initialisation: datasets with two rows, of
+            # which the LAST one is in force (the first is a superseded power-up configuration)
+            corr.create_dataset('int_time', data=np.array([float(int_time) * 2, float(int_time)]))
+            corr.create_dataset('n_chans', data=np.array([int(F) * 2, int(F)]))
+            corr.create_dataset('bandwidth', data=np.array([float(bandwidth) / 2, float(bandwidth)]))
+            corr.create_dataset('bls_ordering', data=np.array([corrprods[::-1], corrprods], dtype='S'))
+        else:
+            corr.attrs['int_time'] = float(int_time)
+            corr.attrs['n_chans'] = int(F)
+            corr.attrs['bandwidth'] = float(bandwidth)
+            corr.attrs['bls_ordering'] = np.array(corrprods, dtype='S')
         cants = cfg.create_group('Antennas')
         sens = f.create_group('MetaData/Sensors')
         sants = sens.create_group('Antennas')
